@@ -133,16 +133,19 @@ def check_property(pid, tier="quick", only_jobs=None, keep=False, seed=0):
             else:
                 jf.append(o)
         failures += [(j, o) for o in jf]
+        nk = len([1 for k, o in known_hits if o.job == j["name"]])
         if j.get("bounded"):
             n_bounded_obl += len(rel)
             n_bounded_dis += len(ok)
         else:
-            n_obl += len(rel)
-            n_dis += len(ok) + len([o for o in fl if o not in jf and o.kind != "unwind"]) * 0
+            # obligations listed as known findings are reported separately
+            n_obl += len(rel) - nk
+            n_dis += len(ok)
         for o in ok[:2]:
             samples.append(o.brief())
         per_job.append({"job": j["name"], "mode": j.get("mode", "E2"),
-                        "bounded": bool(j.get("bounded")), "bound": j.get("bound"),
+                        "bounded": bool(j.get("bounded")), "input_domain_bound": j.get("bound"),
+                        "cases": len(j["cases"]) if j.get("cases") else None,
                         "functions": j.get("functions", []),
                         "obligations": len(rel), "discharged": len(ok),
                         "canaries_failing_as_required": len(can),
@@ -200,8 +203,7 @@ def check_property(pid, tier="quick", only_jobs=None, keep=False, seed=0):
         "wall_s": round(time.time() - t0, 1),
         "violations": len(failures),
         "coverage": {
-            "obligations": n_obl, "discharged": n_obl - len([1 for j, o in failures if not j.get("bounded")])
-            - len([1 for k, o in known_hits]),
+            "obligations": n_obl, "discharged": n_dis,
             "checker_cmd": "bin/xv check %s --tier %s" % (pid, tier),
             "trusted_base": TRUSTED_BASE,
             "functions_under_contract": fn_under_contract,
@@ -224,7 +226,7 @@ def check_property(pid, tier="quick", only_jobs=None, keep=False, seed=0):
     for e in tool_errors:
         print("TOOL-ERROR: %s" % e)
     print("xv: %s %s: %d/%d obligations discharged in %d jobs, %d known findings, %d violations, %d tool errors, %.0fs"
-          % (pid, tier, ev["coverage"]["discharged"], n_obl, len(jobs), len(known_hits),
+          % (pid, tier, n_dis, n_obl, len(jobs), len(known_hits),
              len(failures), len(tool_errors), time.time() - t0))
     scr.cleanup()
     return exit_code
